@@ -45,7 +45,7 @@ Definition model_obs (c : case) : obs :=
   let f := {| f_enabled := only (c_fe c) (c_code c); f_disabled := only (c_fd c) (c_code c); f_meta := c_meta c;
               f_workspace := c_ws c; f_suppressed := fun _ _ => false |} in
   let k := {| k_codes := codes_of_checker (c_checker c);
-              k_body := fun _ => [ {| e_code := c_code c; e_range := (0, 0); e_msg := [] |} ] |} in
+              k_body := fun _ => [ {| e_code := c_code c; e_range := (0, 0); e_msg := []; e_data := None |} ] |} in
   match diagnose_file (fun _ => ((0, 0), (0, 0))) cfg f [k] with
   | None => ObsNone
   | Some [] => ObsAbsent
@@ -91,8 +91,11 @@ Definition model_reported (g : gcase) : option (list name) :=
                 cfg_globals := g_globals g; cfg_globals_regex := map (rx_fun tbl) (seq 0 nrx); cfg_level := L_Lua55 |} in
   let f := {| f_enabled := []; f_disabled := []; f_meta := false; f_workspace := Some main_workspace_id;
               f_suppressed := fun _ _ => false |} in
-  let occs := map (fun n => {| o_name := n; o_range := (0, 0); o_is_ref := false; o_global_decl := false; o_self_ok := false |}) (g_names g) in
-  match diagnose_file (fun _ => ((0, 0), (0, 0))) cfg f [undefined_global_checker occs] with
+  (* every occurrence has its own range (two uses of one name are different diagnostics, not duplicates) *)
+  let occs := map (fun p => {| o_name := snd p; o_range := (N.of_nat (fst p), N.of_nat (fst p)); o_is_ref := false;
+                               o_global_decl := false; o_self_ok := false |})
+                  (zip (seq 0 (List.length (g_names g))) (g_names g)) in
+  match diagnose_file (fun r => ((0, fst r), (0, snd r))) cfg f [undefined_global_checker occs] with
   | None => None
   | Some ds => Some (map (fun d => skipn (List.length ug_prefix) (d_msg d)) ds)
   end.
